@@ -100,6 +100,12 @@ def apply_edit(pkg: M.Package, rng: Rng, kind: str, only=None, only_steps=None):
         r = rng.choice(cands)
         n = r.fields.pop(rng.randrange(len(r.fields)))[0]
         return "remove_field %s.%s" % (r.name, n)
+    if kind == "add_fixed_vector_field" and recs:
+        # a field whose C++ type is an aggregate without a constructor (std::array): "added parts are defaulted" has to be true for it too
+        r = rng.choice(recs)
+        n = _fresh_member([f for f, _ in r.fields], rng)
+        r.fields.insert(rng.randint(0, len(r.fields)), (n, Vec(Prim(rng.choice(["float32", "int32", "uint8", "float64"])), rng.choice([2, 3, 4]))))
+        return "add_fixed_vector_field %s.%s" % (r.name, n)
     if kind == "remove_last_field":
         cands = [r for r in recs if len(r.fields) > 1]
         if not cands:
@@ -382,7 +388,7 @@ def evolve(pkg: M.Package, rng: Rng, n: int, kinds) -> tuple:
 RECORD_EDITS = ["add_optional_field", "remove_optional_field", "reorder_fields", "add_field", "remove_field", "widen_field", "make_optional", "widen_vector_field", "make_required"]
 
 
-def with_versions(pkg: M.Package, rng: Rng, n_versions: int, partial: bool, must_edit=(), order="oldest_first", p_new_protocol=0.0, layout="siblings", widen_steps=(), widen_aliases=(), union_steps=(), to_union_steps=(), tail_records=()) -> M.Package:
+def with_versions(pkg: M.Package, rng: Rng, n_versions: int, partial: bool, must_edit=(), order="oldest_first", p_new_protocol=0.0, layout="siblings", widen_steps=(), widen_aliases=(), union_steps=(), to_union_steps=(), tail_records=(), fixed_vector_records=()) -> M.Package:
     """Treat pkg as the oldest version; evolve it n_versions times; the newest package lists all
     its predecessors under `versions:`.  Returns the newest package.
     must_edit: names of records that each get at least one record edit in every evolution step."""
@@ -421,6 +427,11 @@ def with_versions(pkg: M.Package, rng: Rng, n_versions: int, partial: bool, must
                 l.append(d)
         if partial and to_union_steps and r6.chance(0.4):
             d = apply_edit(cur, r6, "widen_to_union", only_steps=tuple(r6.sample(list(to_union_steps), 1)))
+            if d:
+                l.append(d)
+        r8 = rng.fork("fixedvec", i)
+        if partial and fixed_vector_records and r8.chance(0.6):
+            d = apply_edit(cur, r8, "add_fixed_vector_field", only=tuple(fixed_vector_records))
             if d:
                 l.append(d)
         r7 = rng.fork("tail", i)
